@@ -315,6 +315,19 @@ def _fold_constant_tests(stmts: list) -> list:
     return out
 
 
+def _relocate(node: ast.AST, at: ast.AST) -> ast.AST:
+    """inlined code is evaluated at the call site: every node gets the line of the call (rules order statements and test the validity of
+    temporaries by line)"""
+    for y in ast.walk(node):
+        if isinstance(y, (ast.expr, ast.stmt, ast.excepthandler, ast.arg, ast.keyword, ast.alias, ast.match_case, ast.pattern)) or hasattr(y, "lineno"):
+            if "lineno" in getattr(y, "_attributes", ()):
+                y.lineno = getattr(at, "lineno", 1)
+                y.end_lineno = getattr(at, "end_lineno", y.lineno)
+                y.col_offset = getattr(at, "col_offset", 0)
+                y.end_col_offset = getattr(at, "end_col_offset", 0)
+    return node
+
+
 class _Inliner:
     def __init__(self, tree: ast.Module, helpers: dict, known: Optional[set] = None, pinned: Optional[dict] = None):
         self.tree = tree
@@ -390,7 +403,7 @@ class _Inliner:
         body = [_Rename(ren, subst).visit(st) for st in body]
         out = _fold_constant_tests(prelude + _convert(body, make_result))
         for st in out:
-            ast.fix_missing_locations(st)
+            _relocate(st, call)
         return out
 
     # ---- rewriting one function -------------------------------------------------------------------------------------------------
@@ -537,7 +550,7 @@ class _Inliner:
                                 bound[p] = ast.Name(id=t, ctx=ast.Load())
                     e = _Rename({}, bound).visit(copy.deepcopy(h.body[0].value))
                     inliner.changed = True
-                    return ast.fix_missing_locations(ast.copy_location(e, x))
+                    return _relocate(e, x)
                 if not hoist_ok:
                     return x
                 inliner.counter += 1
